@@ -33,7 +33,8 @@ Clauses(r) ==
 Sig(r) == r.entry \o
           (IF r.raised0 \/ r.raised1 \/ ~ r.same_shape \/ r.kind # "coord" THEN ""
            ELSE IF \A k \in DOMAIN r.delta : r.delta[k] = << 0, 0 >> THEN ":origin-ignored"
-           ELSE IF \E k \in DOMAIN r.delta : r.delta[k][1] = 999999 \/ r.delta[k][2] = 999999 THEN ":translated-only-approximately"
+           ELSE IF (\E k \in DOMAIN r.delta : r.delta[k][1] = 999999 \/ r.delta[k][2] = 999999) /\ r.max_dev <= 6
+                THEN ":translated-only-approximately"    \* every point within 6 ticks (3/4 of the 8-tick pixel of the probe) of the exact shift
            ELSE ":wrong-shift")
 
 TraceInit == /\ i = 1 /\ phase = "trace" /\ obs0 = << >> /\ obs1 = << >>
